@@ -57,6 +57,7 @@ func (h *HistStep) setInput(b []byte) {
 // ------------------------------------------------------------------ (1) StmtsSeq
 
 type seqResult struct {
+	AtYield []string // dump of each statement taken when it was yielded
 	Stmts []*syntax.Stmt
 	Err   error
 	Panic string
@@ -74,6 +75,9 @@ func stmtsSeqWith(p *syntax.Parser, rd *SimReader, abandonAfter int) (res seqRes
 			break
 		}
 		res.Stmts = append(res.Stmts, s)
+		// what the consumer sees at the moment of the yield (it may run the
+		// statement right away, as an interpreter would)
+		res.AtYield = append(res.AtYield, dump(s))
 		if abandonAfter >= 0 && len(res.Stmts) > abandonAfter {
 			break
 		}
@@ -92,6 +96,13 @@ func checkStmtsSeq(cfg Cfg, data []byte, plan Plan, ref PR) (ok bool, class, det
 	}
 	if eq, d := stmtsEqual(ref.F.Stmts, got.Stmts); !eq {
 		return false, "stmtsseq-differs", d, rd
+	}
+	// The statement must already be the one Parse returns when it is
+	// yielded, not only once the iterator has finished.
+	for i, s := range ref.F.Stmts {
+		if want := dump(s); i < len(got.AtYield) && got.AtYield[i] != want {
+			return false, "stmtsseq-yielded-before-complete", fmt.Sprintf("statement %d as it was when yielded differs from Parse's: %s", i, firstDiff(want, got.AtYield[i])), rd
+		}
 	}
 	return true, "", "", rd
 }
@@ -146,6 +157,14 @@ func runInteractive(p *syntax.Parser, rd *SimReader, stopAfterYields int) (res i
 // finished implements the metamorphic "is this delivered prefix a finished
 // program?" test; it returns the statements of the prefix when it is.
 func finished(cfg Cfg, prefix []byte) ([]*syntax.Stmt, bool) {
+	// A prefix whose last newline is escaped is a line the user has not
+	// finished typing ("a;\" + newline): a shell shows its continuation
+	// prompt and runs nothing yet, even though every statement so far is
+	// complete. The metamorphic test below cannot see that (the appended
+	// command becomes a new statement), so such instants are not judged.
+	if endsWithEscapedNewline(prefix) {
+		return nil, false
+	}
 	a := parseOneShot(cfg, prefix)
 	if a.Panic != "" || a.Err != nil {
 		return nil, false
@@ -168,6 +187,24 @@ func finished(cfg Cfg, prefix []byte) ([]*syntax.Stmt, bool) {
 		return nil, false
 	}
 	return a.F.Stmts, true
+}
+
+// endsWithEscapedNewline reports whether b ends in a newline (or CR LF)
+// preceded by an odd number of backslashes.
+func endsWithEscapedNewline(b []byte) bool {
+	n := len(b)
+	if n == 0 || b[n-1] != '\n' {
+		return false
+	}
+	n--
+	if n > 0 && b[n-1] == '\r' {
+		n--
+	}
+	k := 0
+	for n-k > 0 && b[n-k-1] == '\\' {
+		k++
+	}
+	return k%2 == 1
 }
 
 func checkInteractive(cfg Cfg, data []byte, plan Plan, ref PR, st *Stats) (ok bool, class, detail string, nontrivial bool) {
@@ -636,6 +673,10 @@ func runC08(it *Item, tier string, st *Stats) ([]Violation, uint64) {
 				if r.Chance(1, 4) {
 					s, _ := mutate(r, string(in))
 					in = []byte(s)
+				} else if r.Chance(1, 5) {
+					// the input under test itself, printed before: printing
+					// one file twice must give the same bytes twice
+					in, h.Lang = data, lang
 				}
 				h.setInput(in)
 				h.Plan = OneShot()
